@@ -16,7 +16,7 @@ def run(tier, seed):
     rep = nv.Report(PROP, tier, seed, "model_checking")
     nv.build_harness(["nv-typing"])
     d = nv.scratch("xpipe")
-    plan = [("core", 4), ("if", 5), ("arith", 5)] if tier == "quick" else [("core", 5), ("if", 6), ("arith", 6)]
+    plan = [("core", 4), ("if", 5), ("arith", 5)] if tier == "quick" else [("core", 5), ("if", 5), ("arith", 5)]
     seen, cases = set(), []
     for alpha, maxlen in plan:
         cfg = os.path.join(nv.SPEC, "_gen_Pipeline_%d.cfg" % os.getpid())
